@@ -152,6 +152,13 @@ def run(ctx):
             if 290 <= p < 305 or p < 40:
                 continue
             base[p] = rng.choice([34, 39, 92, 10, 13, 0, 255, rng.randrange(256)])
+        # bracketed text inside one segment (the parser also looks for "[...]" byte lists on every line)
+        for payload in rng.sample([b"[]", b"[12, 34]", b"['0x41', '0x42']", b"[zz]", b"[ ]", b"[0x]"], 3):
+            if len(payload) <= seg:
+                k = rng.randrange(2, max(3, 1024 // seg - 1))
+                p0 = k * seg + rng.randrange(0, seg - len(payload) + 1)
+                if p0 >= 310 and p0 + len(payload) <= 1024:
+                    base[p0:p0 + len(payload)] = payload
         peer = SimPeer(snapshot=default, seg=seg)
         peer.sim.structure.set_status_block(bytes(base))
         with capture_log(logging.DEBUG) as buf:
